@@ -1,8 +1,178 @@
 /-
-C20 — property theorems (stub; see DESIGN.md §6).
+C20 — VAT: the returned index vector is a permutation of all samples that starts
+at an endpoint of a largest dissimilarity and then repeatedly appends an
+unvisited sample closest to the visited set; the returned matrix is the input
+re-ordered by that permutation (hence symmetric with zero diagonal when the
+input is).
+
+Property theorems only; helper lemmas live in `ArtProofs.VAT`, the model in
+`ArtModel.VAT`, namespace `Art.VAT` (`vat D = (indices, D[np.ix_(indices, indices)])`).
+All statements hold for every linearly ordered entry type, every `n`
+(`n ≥ 1` where a first index is mentioned) and every `n × n` matrix `D`
+(symmetric or not, with or without ties / duplicates).  `ent D i j : Option α`
+is `D[i][j]` (`some` exactly on the positions of `D`), so
+`∀ i' j' u, ent D i' j' = some u → …` ranges over all entries of `D`.
 -/
-import ArtModel.Basic
+import Mathlib.Data.Nat.Basic
+import ArtProofs.VAT
 
 namespace Art.C20
+open Art.VAT
+
+variable {α : Type} [LinearOrder α] {n : Nat} {D : List (List α)}
+
+omit [LinearOrder α] in
+/-- On an `n × n` matrix every position `(i, j)` with `i, j < n` holds an entry:
+the `ent … = some …` premises/conclusions below are never vacuous. -/
+theorem entries_defined (hsq : Square n D) {i j : Nat} (hi : i < n) (hj : j < n) :
+    ∃ v, ent D i j = some v :=
+  Option.isSome_iff_exists.mp (ent_isSome_of_square hsq hi hj)
+
+/-- The returned indices are a permutation of all samples `0 … n-1`
+(every sample exactly once) — for every `n`, including `0` and `1`. -/
+theorem vat_perm (hsq : Square n D) : (vat D).1.Perm (List.range n) :=
+  vatOrder_perm hsq
+
+/-- The first index is an endpoint of a largest dissimilarity: its row holds an
+entry `v = D[i0][j]` that dominates every entry of `D`. -/
+theorem vat_seed_is_max_endpoint (hsq : Square n D) (hn : 1 ≤ n) :
+    ∃ i0 j v, (vat D).1[0]? = some i0 ∧ ent D i0 j = some v ∧
+      ∀ i' j' u, ent D i' j' = some u → u ≤ v := by
+  obtain ⟨ix, h0, j, v, hv, hge, _⟩ := (vatOrder_spec hsq hn).2.1
+  exact ⟨ix, j, v, h0, hv, hge⟩
+
+/-- Tie rule of the seed (numpy's first `argmax` in row-major order): every row
+before the seed row lies strictly below the maximum. -/
+theorem vat_seed_first_max_row (hsq : Square n D) (hn : 1 ≤ n) :
+    ∃ i0 j v, (vat D).1[0]? = some i0 ∧ ent D i0 j = some v ∧
+      ∀ i' j' u, i' < i0 → ent D i' j' = some u → u < v := by
+  obtain ⟨ix, h0, j, v, hv, _, hgt⟩ := (vatOrder_spec hsq hn).2.1
+  exact ⟨ix, j, v, h0, hv, hgt⟩
+
+/-- Every later position `k` (for every prefix of the order): the appended index
+`nxt` is unvisited, and it is closest to the visited set among all unvisited
+samples — some visited `i` has `D[i][nxt] ≤ D[i'][j']` for all visited `i'` and
+unvisited `j'`. -/
+theorem vat_prim_step (hsq : Square n D) (k : Nat) (hk : 1 ≤ k) (hkn : k < n) :
+    ∃ nxt, (vat D).1[k]? = some nxt ∧ nxt ∉ (vat D).1.take k ∧ nxt < n ∧
+      ∃ i ∈ (vat D).1.take k, ∃ v, ent D i nxt = some v ∧
+        ∀ i' ∈ (vat D).1.take k, ∀ j', j' < n → j' ∉ (vat D).1.take k →
+          ∀ u, ent D i' j' = some u → v ≤ u := by
+  obtain ⟨nxt, hnxt, hnot, hlt, r, i, v, hr, hv, hmin, _, _⟩ :=
+    (vatOrder_spec hsq (by omega)).2.2 k hk hkn
+  exact ⟨nxt, hnxt, hnot, hlt, i, List.mem_of_getElem? hr, v, hv, hmin⟩
+
+/-- Tie rule of a step (numpy's first `argmin` of `D[np.ix_(visited, remaining)]` in
+row-major order, `remaining` ascending) — together with `vat_prim_step` this pins the
+appended sample down uniquely, also among equidistant / duplicate points:
+`v = D[i][nxt]` is the minimal visited–unvisited distance, `i = idx[r]` is the
+*earliest visited* sample that attains it (every sample visited before `i` is strictly
+farther than `v` from all unvisited ones) and `nxt` is the *lowest-numbered* unvisited
+sample at distance `v` from `i`. -/
+theorem vat_prim_step_first_min (hsq : Square n D) (k : Nat) (hk : 1 ≤ k) (hkn : k < n) :
+    ∃ nxt r i v, (vat D).1[k]? = some nxt ∧ r < k ∧ (vat D).1[r]? = some i ∧
+      ent D i nxt = some v ∧
+      (∀ i' ∈ (vat D).1.take k, ∀ j', j' < n → j' ∉ (vat D).1.take k →
+        ∀ u, ent D i' j' = some u → v ≤ u) ∧
+      (∀ (r' i' : Nat), r' < r → (vat D).1[r']? = some i' → ∀ j', j' < n →
+        j' ∉ (vat D).1.take k → ∀ u, ent D i' j' = some u → v < u) ∧
+      (∀ j', j' < nxt → j' ∉ (vat D).1.take k → ∀ u, ent D i j' = some u → v < u) := by
+  obtain ⟨nxt, hnxt, _, _, r, i, v, hr, hv, hmin, hrow, hcol⟩ :=
+    (vatOrder_spec hsq (by omega)).2.2 k hk hkn
+  have hrk : r < k := by
+    have := (List.getElem?_eq_some_iff.mp hr).1
+    simp only [List.length_take] at this
+    omega
+  refine ⟨nxt, r, i, v, hnxt, hrk, ?_, hv, hmin, ?_, hcol⟩
+  · rw [List.getElem?_take_of_lt hrk] at hr; exact hr
+  · intro r' i' hr' hi'
+    exact hrow r' i' hr' (by rw [List.getElem?_take_of_lt (by omega)]; exact hi')
+
+/-- The returned matrix is `n × n` and is exactly the input re-ordered by the
+returned permutation: `out[a][b] = D[idx[a]][idx[b]]`. -/
+theorem vat_matrix_reordered (hsq : Square n D) :
+    Square n (vat D).2 ∧
+    ∀ a b, a < n → b < n → ∃ ia ib, (vat D).1[a]? = some ia ∧ (vat D).1[b]? = some ib ∧
+      ent (vat D).2 a b = ent D ia ib := by
+  have hp := vatOrder_perm hsq
+  have hlen : (vatOrder D).length = n := by simpa using hp.length_eq
+  have hb : ∀ i ∈ vatOrder D, i < n := fun i hi => List.mem_range.mp (hp.mem_iff.mp hi)
+  refine ⟨ixSub_square hsq hlen hb, fun a b ha hb' => ?_⟩
+  have ha' : a < (vatOrder D).length := hlen ▸ ha
+  have hb'' : b < (vatOrder D).length := hlen ▸ hb'
+  refine ⟨(vatOrder D)[a], (vatOrder D)[b], List.getElem?_eq_getElem ha',
+    List.getElem?_eq_getElem hb'', ?_⟩
+  show ent (ixSub D (vatOrder D) (vatOrder D)) a b = _
+  rw [ent_ixSub hsq hb hb, List.getElem?_eq_getElem ha', List.getElem?_eq_getElem hb'']
+  rfl
+
+/-- Symmetric input with constant diagonal `z` (`z = 0` for a metric) gives a
+symmetric output with the same constant diagonal. -/
+theorem vat_symmetric_zero_diag (hsq : Square n D) (z : α)
+    (hsym : ∀ i, i < n → ∀ j, j < n → ent D i j = ent D j i)
+    (hdiag : ∀ i, i < n → ent D i i = some z) :
+    (∀ a b, ent (vat D).2 a b = ent (vat D).2 b a) ∧ ∀ a, a < n → ent (vat D).2 a a = some z := by
+  have hp := vatOrder_perm hsq
+  have hlen : (vatOrder D).length = n := by simpa using hp.length_eq
+  have hb : ∀ i ∈ vatOrder D, i < n := fun i hi => List.mem_range.mp (hp.mem_iff.mp hi)
+  have key : ∀ a b, ent (vat D).2 a b =
+      ((vatOrder D)[a]?).bind (fun i => ((vatOrder D)[b]?).bind (fun j => ent D i j)) :=
+    fun a b => ent_ixSub hsq hb hb a b
+  constructor
+  · intro a b
+    rw [key, key]
+    cases ha : (vatOrder D)[a]? with
+    | none => cases (vatOrder D)[b]? <;> simp
+    | some i =>
+      cases hb' : (vatOrder D)[b]? with
+      | none => simp
+      | some j =>
+        simp only [Option.bind_some]
+        exact hsym i (hb i (List.mem_of_getElem? ha)) j (hb j (List.mem_of_getElem? hb'))
+  · intro a ha
+    have ha' : a < (vatOrder D).length := hlen ▸ ha
+    rw [key, List.getElem?_eq_getElem ha']
+    exact hdiag _ (hb _ (List.getElem_mem ha'))
+
+/-! ### non-vacuity: concrete matrices with ties -/
+
+/-- symmetric, zero diagonal; the maximum 9 occurs at (0,1),(1,0),(1,3),(3,1); in the
+second step the minimum 4 of `D[[0,2] × [1,3]] = [[9,4],[4,7]]` is tied between
+(0,1) and (1,0) — row-major order picks column 1, i.e. sample 3. -/
+def M : List (List Nat) := [[0, 9, 1, 4], [9, 0, 4, 9], [1, 4, 0, 7], [4, 9, 7, 0]]
+
+example : Square 4 M := by decide
+
+example : vat M = ([0, 2, 3, 1], [[0, 1, 4, 9], [1, 0, 7, 4], [4, 7, 0, 9], [9, 4, 9, 0]]) := by
+  decide
+
+/-- the hypotheses of `vat_symmetric_zero_diag` hold for `M` … -/
+example : (∀ i, i < 4 → ∀ j, j < 4 → ent M i j = ent M j i) ∧ ∀ i, i < 4 → ent M i i = some 0 := by
+  decide
+
+/-- … and so does its conclusion on the concrete output -/
+example : (∀ a, a < 4 → ∀ b, b < 4 → ent (vat M).2 a b = ent (vat M).2 b a) ∧
+    ∀ a, a < 4 → ent (vat M).2 a a = some 0 := by
+  decide
+
+/-- the general theorems instantiated on `M` (hypotheses are satisfiable for `n = 4 ≥ 2`) -/
+example := vat_prim_step (D := M) (n := 4) (by decide) 2 (by omega) (by omega)
+example := vat_seed_is_max_endpoint (D := M) (n := 4) (by decide) (by omega)
+
+/-- not symmetric; the first maximum in row-major order is in row 2 (not row 0), the
+all-equal remainder makes every later step a tie (first remaining column wins). -/
+def N : List (List Nat) := [[0, 3, 3, 3], [3, 0, 3, 3], [3, 7, 0, 7], [3, 3, 3, 0]]
+
+example : Square 4 N := by decide
+
+example : vat N = ([2, 0, 1, 3], [[0, 3, 7, 7], [3, 0, 3, 3], [3, 3, 0, 3], [3, 3, 3, 0]]) := by
+  decide
+
+/-- duplicates (samples 0 and 2 coincide: distance 0 off the diagonal) -/
+example : (vat [[0, 5, 0], [5, 0, 5], [0, 5, 0]]).1 = [0, 2, 1] := by decide
+
+/-- `n = 1` and `n = 0` -/
+example : vat [[(0 : Nat)]] = ([0], [[0]]) := by decide
+example : vat ([] : List (List Nat)) = ([], []) := by decide
 
 end Art.C20
